@@ -1,6 +1,7 @@
 package subj
 
 import (
+	"math"
 	"math/rand"
 
 	"github.com/bradenaw/juniper/container/deque"
@@ -111,8 +112,14 @@ func DriveDeque(r *rec.Rec, rng *rand.Rand, run, ops int, variant string) {
 			g := []int{0, 1, 2, 5, 17, 40}[rng.Intn(6)]
 			emit("Grow", []int{g}, 0, func() int { d.Grow(g); return resOK })
 		default:
-			s := []int{-1, 0, 0, 1, 3, 20}[rng.Intn(6)]
-			emit("Shrink", []int{s}, 0, func() int { d.Shrink(s); return resOK })
+			s := []int{-1, 0, 0, 1, 3, 20, math.MaxInt, math.MaxInt - 1, math.MaxInt / 2, math.MinInt}[rng.Intn(10)]
+			ls := s // logged clipped to 32 bits (TLC's integer range); only the sign matters to the rule
+			if ls > math.MaxInt32 {
+				ls = math.MaxInt32
+			} else if ls < math.MinInt32 {
+				ls = math.MinInt32 + 1
+			}
+			emit("Shrink", []int{ls}, 0, func() int { d.Shrink(s); return resOK })
 		}
 	}
 }
